@@ -412,16 +412,22 @@ class Connection(ExportImport):
         # the savepoint, then they won't have _p_oid or _p_jar after
         # they've been unadded. This will make the code in _abort
         # confused.
-        self._abort()
-
         if self._savepoint_storage is not None:
+            # objects created in savepoints are about to be un-added
+            self._abort(self._savepoint_storage.creating)
             self._abort_savepoint()
+        else:
+            self._abort()
 
         self._invalidate_creating()
         self._tpc_cleanup()
 
-    def _abort(self):
-        """Abort a transaction and forget all changes."""
+    def _abort(self, unadded=()):
+        """Abort a transaction and forget all changes.
+
+        `unadded` holds the oids of new objects that the caller is going
+        to un-add.
+        """
 
         for obj in self._registered_objects:
             oid = obj._p_oid
@@ -434,9 +440,10 @@ class Connection(ExportImport):
                 del obj._p_oid
                 if obj._p_changed:
                     obj._p_changed = False
-            elif oid in self._creating:
+            elif oid in self._creating or oid in unadded:
                 # A new object that was already stored by the commit that
-                # is being aborted.  _invalidate_creating() disowns it;
+                # is being aborted, or by a savepoint that is being
+                # discarded.  _invalidate_creating() disowns it;
                 # invalidating it first would turn it into a ghost that no
                 # storage can load: it would lose its state for good.
                 pass
@@ -681,7 +688,10 @@ class Connection(ExportImport):
         # by another thread, so the risk of a reread is pretty low.
         # It's really not worth the effort to pursue this.
 
-        self._cache.invalidate(self._modified)
+        # (new objects copied from savepoints are in _modified as well:
+        # they are disowned below, not invalidated -- see _abort())
+        self._cache.invalidate([oid for oid in self._modified
+                                if oid not in self._creating])
         self._invalidate_creating()
         while self._added:
             oid, obj = self._added.popitem()
@@ -1030,13 +1040,14 @@ class Connection(ExportImport):
         return result
 
     def _rollback_savepoint(self, state):
-        self._abort()
-        self._registered_objects = []
         src = self._storage
+        # objects created *after* the savepoint
+        unadded = [oid for oid in src.creating if oid not in state[2]]
+        self._abort(unadded)
+        self._registered_objects = []
 
         # Invalidate objects created *after* the savepoint.
-        self._invalidate_creating(oid for oid in src.creating
-                                  if oid not in state[2])
+        self._invalidate_creating(unadded)
         index = src.index
         src.reset(*state)
         self._cache.invalidate(index)
